@@ -21,9 +21,12 @@ def sh(cmd, **kw):
 
 
 def build_checker(wt, out):
-    r = sh(RUSTC + ['--crate-type', 'rlib', '--crate-name', 'checker', '-o', out + '.rlib', os.path.join(wt, 'rust/src/lib.rs')], env=ENV)
+    d = out + '_lib'
+    os.makedirs(d, exist_ok=True)
+    rlib = os.path.join(d, 'libchecker.rlib')
+    r = sh(RUSTC + ['--crate-type', 'rlib', '--crate-name', 'checker', '-o', rlib, os.path.join(wt, 'rust/src/lib.rs')], env=ENV, cwd=d)
     if r.returncode: return False, r.stderr[-500:]
-    r = sh(RUSTC + ['--crate-type', 'bin', '-o', out, '--extern', 'checker=' + out + '.rlib', os.path.join(wt, 'rust/src/main.rs')], env=ENV)
+    r = sh(RUSTC + ['--crate-type', 'bin', '-o', out, '--extern', 'checker=' + rlib, os.path.join(wt, 'rust/src/main.rs')], env=ENV, cwd=d)
     return r.returncode == 0, r.stderr[-500:]
 
 
